@@ -116,7 +116,10 @@ def rename_eval(ctx, R):
     cases = [(None, "a", "x"),
              ((None, ["a", "b", "c"]), "a", "x"), ((None, ["a", "b", "c"]), "a", "b"), ((None, ["a", "b", "c"]), "z", "x"), ((None, ["a", "b", "c"]), "b", "b"),
              (("a", ["b", "c"]), "a", "x"), (("a", ["b", "c"]), "b", "x"), (("a", ["b", "c"]), "z", "x"), (("a", ["b", "c"]), "b", "a"),
-             (("a", ["b", "c"]), "b", "c"), (("a", ["b", "c"]), "b", "b"), (("a", ["b", "c"]), "a", "a"), (("a", ["b", "c"]), "a", "c")]
+             (("a", ["b", "c"]), "b", "c"), (("a", ["b", "c"]), "b", "b"), (("a", ["b", "c"]), "a", "a"), (("a", ["b", "c"]), "a", "c"),
+             # names are the caller's octets: blanks, letter case and a trailing dot are part of them
+             ((None, ["a", "b", "c"]), "a", " x "), ((None, ["a", "b", "c", "x"]), "a", " x "), (("a", ["b", " b"]), " b", "B."),
+             (("a", ["b", "c", "B"]), "c", "b ")]
     n = 0
     try:
         for L, old, new in cases:
@@ -135,8 +138,10 @@ def rename_eval(ctx, R):
                                 # which discipline is broken
                                 rule, key = "R6", "result"
                                 names_g = [x[0] for x in gev]
-                                if L is None and gev:
+                                if L is None:
                                     rule, key = "R5", "listing-refused"
+                                elif [x[0] for x in gev] == [x[0] for x in wev] and gev != wev and [x[2:] for x in gev] == [x[2:] for x in wev]:
+                                    rule, key = "R4", "operations"  # the right steps, on other names than the caller's
                                 elif "delete" in names_g and (("put", new, get) not in gev or not put or (L[0] == old and (("setactive", new) not in gev or not act))):
                                     rule, key = "R1", "delete-without-copy"
                                 elif "put" in names_g and "put" not in [x[0] for x in wev]:
